@@ -3,10 +3,10 @@ CONSTANTS
   N = 3
   Size = 3
   MaxRead = 4
-  Unit = FALSE
+  Unit = TRUE
   Variant = "fixed"
   MaxCalls = 4
-  Trunc = {9}
+  Trunc = {9, 7, 4, 0}
 INVARIANTS NoReleaseBeforeVerify HistoryIndependence SequentialPrefix NoSilentTruncation
 PROPERTY EveryCallReturns
 CHECK_DEADLOCK FALSE
